@@ -116,6 +116,15 @@ class Conv:
                 return f'(ELet {self.var(l.target)} {self.expr(l.value)})'
             if isinstance(op, ast.Eq):
                 return f'(EEq {self.expr(l)} {self.expr(r)})'
+            if isinstance(op, ast.Is):
+                return f'(EIs {self.expr(l)} {self.expr(r)})'
+            # (x := getattr(obj, 'name', SENTINEL)) is not SENTINEL
+            if isinstance(op, ast.IsNot) and isinstance(l, ast.NamedExpr) and self.is_call(l.value, 'getattr', 3) \
+               and self.hole(r) and self.hole(l.value.args[2]) == self.hole(r) and self.hole(l.value.args[1]):
+                name = self.hole(l.value.args[1])
+                self.role(name, 'str')
+                self.role(self.hole(r), 'sentinel')
+                return f'(EAttrLet {self.var(l.target)} {self.expr(l.value.args[0])} {name})'
         raise Untranslatable('expression ' + ast.dump(n))
 
     def finish(self, name, body, order=None, comment=''):
@@ -132,6 +141,10 @@ class Conv:
                 ty = 'Z'
             elif r == {'lit'}:
                 ty = 'pyval'
+            elif r == {'str'}:
+                ty = 'string'
+            elif r == {'sentinel'}:
+                continue
             elif r == {'expr'}:
                 ty = 'expr'
                 body = body.replace(f'<<{h}>>', h)
@@ -243,6 +256,29 @@ def main():
     if [Conv().hole(p) for p in parts] != ['child1', 'child2', 'child3']:
         raise Untranslatable('annotated: children are not spliced verbatim')
     out.append('Definition tpl_annotated_op : expr -> expr -> expr := EAnd.\n')
+    # the localisation conjunct emitted before the validators of an ignorable metahint
+    pz = AN.CODE_PEP593_VALIDATOR_PITH.format(indent_curr='', pith_curr_assign_expr='HOLE_pith_curr_assign_expr',
+                                              pith_curr_var_name='HOLE_pith_curr_var_name')
+    parts = joined('annotated_pith', [AN.CODE_PEP593_VALIDATOR_PREFIX, pz, v1], L.LINE_RSTRIP_INDEX_AND,
+                   AN.CODE_PEP593_VALIDATOR_SUFFIX, ast.And)
+    if len(parts) != 2 or Conv().hole(parts[1]) != 'child2':
+        raise Untranslatable('annotated_pith: unexpected shape')
+    c = Conv(); out.append(c.finish('tpl_annotated_pith', c.expr(parts[0]), comment='CODE_PEP593_VALIDATOR_PITH'))
+
+    # ---- beartype.vale snippets ({obj} is the pith expression; {indent} vanishes)
+    from beartype.vale._util import _valeutilsnip as V
+    out.append(T('tpl_vale_isequal', V.VALE_CODE_CHECK_ISEQUAL_TEST.format(param_name_obj_value='HOLE_lit_value')
+                 .replace('lit_value', 'lit_value'), 'VALE_CODE_CHECK_ISEQUAL_TEST'))
+    out.append(T('tpl_vale_isinstance', V.VALE_CODE_CHECK_ISINSTANCE_TEST.format(param_name_types='HOLE_param_name_types'),
+                 'VALE_CODE_CHECK_ISINSTANCE_TEST'))
+    out.append(T('tpl_vale_issubclass', V.VALE_CODE_CHECK_ISSUBCLASS_TEST.format(param_name_types='HOLE_param_name_types'),
+                 'VALE_CODE_CHECK_ISSUBCLASS_TEST'))
+    attr_value_expr = V.VALE_CODE_CHECK_ISATTR_VALUE_EXPR.format(
+        attr_name_expr='HOLE_attr_name', local_name_attr_value='HOLE_local_name_attr_value',
+        local_name_sentinel='HOLE_sentinel')
+    out.append(T('tpl_vale_isattr', V.VALE_CODE_CHECK_ISATTR_TEST.format(
+        attr_value_expr=attr_value_expr, attr_value_is_valid_expr='HOLE_attr_value_is_valid_expr',
+        local_name_sentinel='HOLE_sentinel'), 'VALE_CODE_CHECK_ISATTR_TEST + VALE_CODE_CHECK_ISATTR_VALUE_EXPR'))
     print('\n'.join(out))
 
 
